@@ -453,6 +453,7 @@ type histOpts struct {
 	dumpEvery          int
 	selectEvery        int
 	cap                int
+	pFail              int // percent of statements that are single-row INSERTs refused at their first row
 }
 
 func runHistory(cfg *config, id int, r *hx.Rng, o histOpts) {
@@ -474,8 +475,39 @@ func runHistory(cfg *config, id int, r *hx.Rng, o histOpts) {
 			break
 		}
 		t := tables[r.Intn(len(tables))]
+		if o.pFail > 0 && r.Intn(100) < o.pFail {
+			// refused before anything is changed: oversize row, wrong type, out-of-range INT, wrong arity, unknown table
+			row := genRowValues(r, t, false)
+			switch r.Intn(5) {
+			case 0:
+				for i, c := range t.cols {
+					if c.ty == "varchar" {
+						row[i] = strings.Repeat("x", 401)
+					}
+				}
+				d.insertv(t.name, nil, [][]interface{}{row})
+			case 1:
+				row[0] = "not a number"
+				if t.cols[0].ty == "varchar" {
+					row[0] = int64(5)
+				}
+				d.insertv(t.name, nil, [][]interface{}{row})
+			case 2:
+				d.insertv(t.name, nil, [][]interface{}{append(row, int64(1))})
+			case 3:
+				d.insertv("nosuchtable", nil, [][]interface{}{row})
+			default:
+				for i, c := range t.cols {
+					if c.ty == "int" {
+						row[i] = int64(2147483648)
+					}
+				}
+				d.insertv(t.name, nil, [][]interface{}{row})
+			}
+			continue
+		}
 		switch x := r.Intn(100); {
-		case x < 6 && len(tables) < o.maxTables:
+		case x < 8 && len(tables) < o.maxTables:
 			newTable()
 		case x < 70:
 			n := r.Range(1, o.maxRows)
@@ -524,9 +556,11 @@ func runHistory(cfg *config, id int, r *hx.Rng, o histOpts) {
 			d.reopen()
 		case x < o.pFlush+o.pReopen+o.pCrash:
 			d.crash()
-			if d.recoverDB() != "ok" {
-				d.selectEvery()
-				d.dump()
+			if res := d.recoverDB(); res != "ok" {
+				if res == "initerr" {
+					d.selectEvery()
+					d.dump()
+				}
 				return
 			}
 			if r.Bool() { // running recovery again changes nothing
@@ -575,7 +609,7 @@ func runDB(cfg *config) {
 		for i := 0; i < n; i++ {
 			id++
 			rr := r.Fork()
-			o := histOpts{stmts: rr.Range(5, 40), maxTables: 4, maxCols: 6, maxRows: 10, bigValues: rr.Bool(), pFlush: []int{0, 15, 40, 100}[rr.Intn(4)], pReopen: 3, pCrash: 25, dumpEvery: 9, selectEvery: 4}
+			o := histOpts{stmts: rr.Range(5, 40), maxTables: 4, maxCols: 6, maxRows: 10, bigValues: rr.Bool(), pFlush: []int{0, 15, 40, 100}[rr.Intn(4)], pReopen: 3, pCrash: []int{10, 25, 50}[rr.Intn(3)], dumpEvery: 9, selectEvery: 4, pFail: []int{0, 8, 20}[rr.Intn(3)]}
 			runHistory(cfg, id, rr, o)
 		}
 	}
